@@ -126,19 +126,30 @@ impl Manifest {
 
         let mut data = String::new();
         file.seek(SeekFrom::Start(0)).await?;
-        let mut reader = BufReader::new(file);
+        let mut reader = BufReader::new(&mut *file);
 
         // TODO: don't read all to memory
         reader.read_to_string(&mut data).await?;
 
-        let stream = Deserializer::from_str(&data).into_iter::<ManifestOperation>();
+        let mut stream = Deserializer::from_str(&data).into_iter::<ManifestOperation>();
 
         let mut ops = vec![];
         let mut buffered_ops = vec![];
         let mut begin = false;
+        let mut torn_tail = false;
 
-        for value in stream {
-            let value = value?;
+        for value in stream.by_ref() {
+            let value = match value {
+                Ok(value) => value,
+                // A crash in the middle of an append leaves a partially written record at the
+                // end of the log. The transaction it belongs to was never acknowledged, so the
+                // log ends at the last complete record.
+                Err(e) if e.is_eof() => {
+                    torn_tail = true;
+                    break;
+                }
+                Err(e) => return Err(e.into()),
+            };
             match value {
                 ManifestOperation::Begin => begin = true,
                 ManifestOperation::End => {
@@ -157,6 +168,18 @@ impl Manifest {
 
         if !buffered_ops.is_empty() {
             warn!("manifest: find uncommitted entries");
+        }
+
+        if torn_tail {
+            // Cut the partial record off, so that records appended from now on follow the
+            // last complete record instead of the garbage.
+            let valid_len = stream.byte_offset() as u64;
+            warn!("manifest: find partially written entry, truncate to {valid_len} bytes");
+            file.set_len(valid_len).await?;
+            file.seek(SeekFrom::Start(valid_len)).await?;
+            if self.enable_fsync {
+                file.sync_data().await?;
+            }
         }
 
         Ok(ops)
